@@ -166,8 +166,10 @@ structure Rule where
   initLast : Nat
   /-- verdicts of the one-shot monitor on which `CompiledRequirement.falsifiedByInner` rejects a scene -/
   sceneReject : List Nat
-  /-- a temporal `require` executed while the scenario is running gets a monitor -/
-  dynMonitored : Bool
+  /-- `_addDynamicRequirement`: a temporal `require` executed while its scenario is running gets a monitor at
+      once, the monitor is updated in that very step and the simulation is rejected when the verdict is in this
+      set (`none`: no monitor is created for such a requirement) -/
+  dynReject : Option (List Nat)
   /-- `propositions.Implies` defines `evaluate()` (needed when a non-temporal `require` is executed while a
       simulation is running: `veneer.require` then calls `req.evaluate()` instead of using a monitor) -/
   impliesEval : Bool
@@ -201,25 +203,87 @@ def F.evaluable (impliesEval : Bool) : F → Bool
   | .implies a b => impliesEval && a.evaluable impliesEval && b.evaluable impliesEval
   | .next _ | .until _ _ | .eventually _ | .always _ => false
 
+/-! ## values of atomic conditions (only their truth value may matter) -/
+
+/-- what an atomic condition returns in a step, as far as Scenic and rv_ltl look at it: its truth value
+    (`bool(v)`), whether it is `None` (rv_ltl's `AtomicMonitor` drops `None` from its history) and an opaque
+    identity standing for everything else -/
+structure PyVal where
+  truth : Bool
+  isNone : Bool
+  tag : Nat
+deriving Repr, DecidableEq
+
+def PyVal.ofBool (b : Bool) : PyVal := { truth := b, isNone := false, tag := 0 }
+
+/-- `PropositionMonitor.update`: the entry of the monitor state for an atom whose closure returned `v`
+    (`bool(b)` when `coerce`, else the raw value: `none` = the step is missing from the atom's history) -/
+def atomInput (coerce : Bool) (v : PyVal) : Option Bool :=
+  if coerce then some v.truth else if v.isNone then none else some v.truth
+
+/-- `evaluate()` of a non-temporal proposition tree on the values of its atoms:
+    `Atomic`: `closure()`; `Not`: `not x`; `And`: `all([...])`; `Or`: `any([...])`;
+    `Implies`: `(not lhs) or rhs` — the *value* of `rhs` when `lhs` is truthy -/
+def F.evalPy (v : Nat → PyVal) : F → PyVal
+  | .atom a => v a
+  | .tt => .ofBool true
+  | .ff => .ofBool false
+  | .not f => .ofBool (!(f.evalPy v).truth)
+  | .and a b => .ofBool ((a.evalPy v).truth && (b.evalPy v).truth)
+  | .or a b => .ofBool ((a.evalPy v).truth || (b.evalPy v).truth)
+  | .implies a b => if (a.evalPy v).truth then b.evalPy v else .ofBool true
+  | _ => .ofBool false
+
+/-- the forms of `evaluate()` that `F.evalPy` hard-wires (class, normalised body) -/
+def canonicalEvalForms : List (String × String) :=
+  [("Atomic", "closure()"), ("Not", "not x"), ("And", "all"), ("Or", "any"), ("Implies", "(not x) or y")]
+
 /-- a non-temporal `require` executed while a simulation is running (`veneer.require`): evaluated once, in
     the current step, with `req.evaluate()` -/
 def runImmediate (R : Rule) (f : F) (σ : Trace) : Outcome :=
   if f.evaluable R.impliesEval then (if f.pval (σ 0) then .accepted else .rejectedAt 0) else .crashed
+
+/-- the same on the values the atoms return (what the code does: `result = req.evaluate(); if not result: reject`) -/
+def runImmediateV (R : Rule) (f : F) (v : Nat → PyVal) : Outcome :=
+  if f.evaluable R.impliesEval then (if (f.evalPy v).truth then .accepted else .rejectedAt 0) else .crashed
 
 /-- a `require` in the setup block of a scenario that is started while the simulation runs: a temporal one is
     registered before `_start` builds the monitors, a non-temporal one is evaluated on the spot -/
 def runRuntimeSetup (c : MonCfg) (R : Rule) (f : F) (σ : Trace) (N : Nat) : Outcome :=
   if f.prop then runImmediate R f σ else run c R f σ N
 
-/-- a `require` executed inside a running scenario (compose block; `_addDynamicRequirement`) -/
-def runDynamic (c : MonCfg) (R : Rule) (f : F) (σ : Trace) (N : Nat) : Outcome :=
-  if f.prop then runImmediate R f σ else if R.dynMonitored then run c R f σ N else .accepted
+/-- a temporal `require` executed inside a running scenario (`_addDynamicRequirement`): the monitor is created
+    and updated in the step the statement executes (relative step 0) and that first verdict is tested against
+    `dr`; from the next step on the monitor is one of `_requirementMonitors` (`_step`, `_stop`) -/
+def runRegistered (c : MonCfg) (R : Rule) (dr : List Nat) (f : F) (σ : Trace) (N : Nat) : Outcome :=
+  if dr.contains (evalAt c σ 1 f 0) then .rejectedAt 0
+  else
+    match findFrom (fun t => R.stepReject.contains (evalAt c σ (t + 1) f 0)) 1 (N - 1) with
+    | some t => .rejectedAt t
+    | none => if R.stopReject.contains (evalAt c σ N f 0) then .rejectedAt (N - 1) else .accepted
 
-/-- what the property asks of the rule -/
+/-- a `require` executed inside a running scenario (compose block): a non-temporal one is evaluated on the
+    spot, a temporal one is handed to `_addDynamicRequirement` -/
+def runDynamic (c : MonCfg) (R : Rule) (f : F) (σ : Trace) (N : Nat) : Outcome :=
+  if f.prop then runImmediate R f σ
+  else
+    match R.dynReject with
+    | some dr => runRegistered c R dr f σ N
+    | none => .accepted
+
+/-- what the property asks of the rule: reject a step on FALSE only (also in the step a requirement is registered
+    at run time), reject at the stop on a falsy last verdict, reject a scene on FALSE only -/
 def Rule.Canonical (R : Rule) : Prop :=
   R.stepReject = [1] ∧ R.stopReject = [1, 2] ∧ R.sceneReject = [1]
 
 instance (R : Rule) : Decidable R.Canonical := by unfold Rule.Canonical; exact inferInstance
+
+/-- … and of the run-time paths: a requirement registered at run time is tested like in every later step, and
+    every non-temporal connective can be evaluated on the spot -/
+def Rule.RuntimeCanonical (R : Rule) : Prop :=
+  R.dynReject = some R.stepReject ∧ R.impliesEval = true
+
+instance (R : Rule) : Decidable R.RuntimeCanonical := by unfold Rule.RuntimeCanonical; exact inferInstance
 
 /-- traces that agree on the first `n` steps -/
 def Agree (σ σ' : Trace) (n : Nat) : Prop := ∀ t, t < n → σ t = σ' t
